@@ -61,7 +61,7 @@ RULE = (f'case = (constructor name, value tree). reftl parses lite_api.tl + ton_
         f'{", ".join(sorted(EXCLUDED))}). Sub-check enum-all-constructors visits EVERY supported constructor k times '
         '(k=8 quick / 150 thorough: minimal value, maximal value, then hash-seeded values), flags-all-combinations '
         'visits every combination of the flag bits a constructor uses (all when <=6 bits, else 64/4096 sampled), '
-        'random draws constructor and value with Hypothesis (nesting <= 4, vectors 0..3, byte/text lengths '
+        'random draws constructor and value with Hypothesis (nesting <= 4, vectors 0..3 and 15..40, byte/text lengths '
         '0..12, 252..257, 1000, 70000; ints over the full range with boundary bias; polymorphic fields through every '
         'supported alternative; bytes fields opaque - never starting with a known constructor id - or a nested boxed '
         'object). classes: ctor=<name> histogram = constructors hit. non-trivial = value contains a string, bytes, '
@@ -725,12 +725,16 @@ def gen_val(ch, t, budget, big, where, bit31):
         if p == 'string':
             return gen_text(ch, big)
         if p == 'bytes':
-            if budget > 0 and where not in UNTOUCHABLE and ch.int(0, 5) == 0:
+            if where not in UNTOUCHABLE and (getattr(ch, 'nest_always', False) or (budget > 0 and ch.int(0, 5) == 0)):
                 return gen_obj(ch, ch.pick(NESTED_POOL), budget - 2, False, bit31=bit31)
             return gen_blob(ch, big)
     if k == 'vector':
-        n = 0 if budget <= 0 else ch.pick([0, 1, 1, 2, 3])
-        return [gen_val(ch, t[1], budget - 1, False, where, bit31) for _ in range(n)]
+        forced = getattr(ch, 'vec_n', None)
+        if forced is not None and budget > 0:
+            n = forced                               # long vectors: small elements (their byte fields still may hold objects)
+            return [gen_val(ch, t[1], min(budget - 1, 1), False, where, bit31) for _ in range(n)]
+        n = 0 if budget <= 0 else ch.pick([0, 1, 1, 2, 3, 3, 2, ch.pick([15, 16, 17, 33])])
+        return [gen_val(ch, t[1], budget - 1 if n <= 3 else min(budget - 1, 1), False, where, bit31) for _ in range(n)]
     if k == 'bare':
         return gen_obj(ch, t[1], budget - 1, big, bit31=bit31)
     if k == 'boxed':
@@ -766,6 +770,31 @@ def enum_all(tier):
             else:
                 tree = gen_obj(HashChooser(f'{name}/{j}'), name, 3, tier != 'quick' and j % 10 == 9, bit31=(j % 6 == 5))
             yield {'ctor': name, 'v': tree}
+        if any(a.type[0] == 'vector' for a in c.args):
+            # long vectors (16, 17, 40 elements) whose elements' byte fields hold nested objects wherever the schema allows
+            for n in (16, 17, 40):
+                ch = HashChooser(f'{name}/longvec/{n}')
+                ch.vec_n, ch.nest_always = n, True
+                yield {'ctor': name, 'v': gen_obj(ch, name, 2, False, bit31=False)}
+
+
+def enum_id_prefixes(tier):
+    """opaque byte strings of 1..3 bytes that are the FIRST bytes of a known constructor id (and 4..7 byte strings that start with an
+    id's first 3 bytes followed by another byte): they are too short to be, or do not start with, a boxed object - the parser
+    has to hand them back as the bytes they are. Every known id is used, in two host constructors with a single `bytes` field."""
+    hosts = [n for n in ('adnl.message.custom', 'liteServer.query', 'pk.unenc') if n in SUPPORTED]
+    ids = sorted(AVOID)
+    for i, le in enumerate(ids):
+        if tier == 'quick' and le[3] not in (0, 0xff) and i % 4:
+            continue                                     # quick: every 4th id, and every id whose last byte is 00 / ff
+        host = hosts[i % len(hosts)]
+        fld = SCH.ctor(host).args[0].name
+        outs = [le[:1], le[:2], le[:3]]
+        tail = bytes([(le[3] + 1) & 0xff])
+        if (le[:3] + tail) not in AVOID:
+            outs += [le[:3] + tail, le[:3] + tail + b'\x00\x00\x00']
+        for payload in outs:
+            yield {'ctor': host, 'v': {'@type': host, fld: {'x': payload.hex(), 'fill': '00', 'rep': 0}}}
 
 
 def enum_flags(tier):
@@ -866,6 +895,8 @@ SUBCHECKS = [
         note=f'every one of the {len(SUPPORTED)} supported constructors x k values (k=8 quick, 150 thorough)'),
     Sub('flags-all-combinations', check_ctor, enum=enum_flags, classify=classify, nontrivial=nontrivial, shards=(8, 16),
         note='every constructor with conditional fields x every combination of its flag bits (capped 64 / 4096)'),
+    Sub('bytes-that-begin-like-a-constructor-id', check_ctor, enum=enum_id_prefixes, classify=classify, nontrivial=nontrivial, shards=(8, 16),
+        note='1..3-byte (and 4..7-byte) opaque payloads sharing their first bytes with every known constructor id (quick: every 4th id)'),
     Sub('random', check_ctor, strategy=strat_random, classify=classify, nontrivial=nontrivial,
         n=(12000, 600000), shards=(16, 48)),
     Sub('string-framing', check_ctor, strategy=strat_strings, classify=classify, nontrivial=nontrivial,
